@@ -913,7 +913,11 @@ class PersistentDict(collections.abc.MutableMapping):
 
     def reload(self):
         """Force a reload from disk, overwriting current cache"""
-        self._cache = dict(self._func.items())
+        # Keep the dict object the finalizer holds: rebinding self._cache would
+        # leave the finalizer dumping the stale contents over later writes.
+        new = dict(self._func.items())
+        self._cache.clear()
+        self._cache.update(new)
 
 
 SEARCH_PATH = []
